@@ -29,7 +29,8 @@ Fixpoint nodup_b (l : list string) : bool :=
 Definition plugin_exactly_once (st : list cid) (po : plugin_obs) : bool :=
   negb (po_registered po)
   || (forallb (fun c => xorb (smem c (po_snapshot po)) (smem c (po_creates po))) st
-      && nodup_b (po_creates po)).
+      && nodup_b (po_creates po)
+      && nodup_b (po_snapshot po)).   (* po_snapshot = everything it was sent in Synchronize requests: a container sent in two snapshots is learnt twice *)
 
 Definition exactly_once_b (o : observation) : bool :=
   forallb (plugin_exactly_once (ob_store o)) (ob_plugins o).
